@@ -236,6 +236,9 @@ func (fr *Frame) builtin(st *State, b *ssa.Builtin, c *ssa.CallCommon, args []Va
 		resOff := tIte(fits, s.S[1], "0")
 		resCap := tIte(fits, s.S[3], ncap)
 		res := Val{T: s.T, S: []Term{resRef, resOff, newLen, resCap}}
+		tgt := vc.define("apptgt", "Int", resRef)
+		lo := vc.elemOff(resOff, s.S[2], es)
+		hi := vc.elemOff(resOff, newLen, es)
 		seen := map[Kind]bool{}
 		for _, k := range ek {
 			if seen[k] {
@@ -245,32 +248,41 @@ func (fr *Frame) builtin(st *State, b *ssa.Builtin, c *ssa.CallCommon, args []Va
 			key := vc.heapKey(k)
 			h := vc.get(st, key)
 			nh := vc.fresh("h.append."+string(k), heapSort(k))
-			// other objects unchanged; target object: prefix preserved, appended
-			// elements written
-			tgt := vc.define("apptgt", "Int", resRef)
+			// other objects unchanged
 			vc.assume(st, fmt.Sprintf("(forall ((r!q Int)) (! (=> (not (= r!q %s)) (= (select %s r!q) (select %s r!q))) :pattern ((select %s r!q))))", tgt, nh, h, nh))
-			// prefix (all slots of the old elements) and, in place, everything
-			// outside the appended window
-			lo := tAdd(resOff, tMul(tInt(int64(es)), s.S[2]))
-			hi := tAdd(resOff, tMul(tInt(int64(es)), newLen))
-			srcOff := s.S[1]
+			// in place: everything outside the appended window is unchanged
 			vc.assume(st, tImp(fits, fmt.Sprintf("(forall ((o!q Int)) (! (=> (or (< o!q %s) (>= o!q %s)) (= (select (select %s %s) o!q) (select (select %s %s) o!q))) :pattern ((select (select %s %s) o!q))))", lo, hi, nh, tgt, h, tgt, nh, tgt)))
-			vc.assume(st, tImp(tNot(fits), fmt.Sprintf("(forall ((o!q Int)) (! (=> (and (<= 0 o!q) (< o!q %s)) (= (select (select %s %s) o!q) (select (select %s %s) (+ %s o!q)))) :pattern ((select (select %s %s) o!q))))", tMul(tInt(int64(es)), s.S[2]), nh, tgt, h, s.S[0], srcOff, nh, tgt)))
+			// reallocated: old elements copied element-wise
+			for j, kk := range ek {
+				if kk != k {
+					continue
+				}
+				dst := tSel2(nh, tgt, tAdd(vc.elemOff("0", "i!q", es), tInt(int64(j))))
+				src := tSel2(h, s.S[0], tAdd(vc.elemOff(s.S[1], "i!q", es), tInt(int64(j))))
+				vc.assume(st, tImp(tNot(fits), fmt.Sprintf("(forall ((i!q Int)) (! (=> (and (<= 0 i!q) (< i!q %s)) (= %s %s)) :pattern (%s) :pattern (%s)))", s.S[2], dst, src, dst, src)))
+			}
 			// appended elements
 			if isStr {
-				vc.assume(st, fmt.Sprintf("(forall ((i!q Int)) (! (=> (and (<= 0 i!q) (< i!q %s)) (= (select (select %s %s) (+ %s i!q)) (sbyte %s i!q))) :pattern ((sbyte %s i!q))))", addLen, nh, tgt, lo, add.S[0], add.S[0]))
+				vc.assume(st, fmt.Sprintf("(forall ((i!q Int)) (! (=> (and (<= 0 i!q) (< i!q %s)) (= (select (select %s %s) %s) (sbyte %s i!q))) :pattern ((sbyte %s i!q))))", addLen, nh, tgt, vc.elemOff(resOff, tAdd(s.S[2], "i!q"), es), add.S[0], add.S[0]))
 			} else if cst, ok := constLen(addLen); ok && cst <= 4 {
 				for i := 0; i < cst; i++ {
 					for j, kk := range ek {
 						if kk != k {
 							continue
 						}
-						src := tSel2(h, add.S[0], tAdd(add.S[1], tInt(int64(i*es+j))))
-						vc.assume(st, tEq(tSel2(nh, tgt, tAdd(lo, tInt(int64(i*es+j)))), src))
+						src := tSel2(h, add.S[0], tAdd(vc.elemOff(add.S[1], tInt(int64(i)), es), tInt(int64(j))))
+						vc.assume(st, tEq(tSel2(nh, tgt, tAdd(vc.elemOff(resOff, tAdd(s.S[2], tInt(int64(i))), es), tInt(int64(j)))), src))
 					}
 				}
 			} else {
-				vc.assume(st, fmt.Sprintf("(forall ((o!q Int)) (! (=> (and (<= 0 o!q) (< o!q %s)) (= (select (select %s %s) (+ %s o!q)) (select (select %s %s) (+ %s o!q)))) :pattern ((select (select %s %s) (+ %s o!q)))))", tMul(tInt(int64(es)), addLen), nh, tgt, lo, h, add.S[0], add.S[1], nh, tgt, lo))
+				for j, kk := range ek {
+					if kk != k {
+						continue
+					}
+					dst := tSel2(nh, tgt, tAdd(vc.elemOff(resOff, tAdd(s.S[2], "i!q"), es), tInt(int64(j))))
+					src := tSel2(h, add.S[0], tAdd(vc.elemOff(add.S[1], "i!q", es), tInt(int64(j))))
+					vc.assume(st, fmt.Sprintf("(forall ((i!q Int)) (! (=> (and (<= 0 i!q) (< i!q %s)) (= %s %s)) :pattern (%s) :pattern (%s)))", addLen, dst, src, dst, src))
+				}
 			}
 			vc.set(st, key, nh)
 		}
